@@ -370,7 +370,7 @@ func (ev *EvalCtx) evalIdent(name string) TV {
 			}
 		}
 		if v, t, ok := ev.fr.localByName(name, ev.at, ev.cur); ok {
-			return TV{V: v, T: t}
+			return TV{V: v, T: t, Addr: ev.fr.lastLocalAddr}
 		}
 	}
 	// package-level constant / variable
@@ -1105,7 +1105,10 @@ func (ev *EvalCtx) evalAbstract(p *Block, e ECall) TV {
 	var rs Sort = SBool
 	var rt types.Type
 	switch p.PureRet {
-	case "bool", "":
+	case "bool":
+		rs = SBool
+		rt = types.Typ[types.Bool]
+	case "":
 		rs = SBool
 	case "mathint":
 		rs = SInt
